@@ -20,6 +20,8 @@ type faultDesc struct {
 	Where    string `json:"where"`
 	Once     bool   `json:"once_then_persistent"`
 	WithData bool   `json:"error_returned_with_data"`
+	Kind1    string `json:"first_error_value,omitempty"` // see iox.FaultKinds
+	Kind2    string `json:"persistent_error_value,omitempty"`
 }
 
 type caseDesc struct {
@@ -31,6 +33,7 @@ type caseDesc struct {
 }
 
 type env struct {
+	o        *vh.Opts
 	sum      *vh.Summary
 	cw       *vh.CaseWriter
 	variants []iox.Variant
@@ -103,6 +106,22 @@ func faultPositions(r *vh.Rng, v iox.Variant, in []byte) []faultDesc {
 		}
 		out = append(out, faultDesc{Pos: seps[r.Pick(len(seps))], Where: "between-records"})
 	}
+	// inside and right after each of the first lines (header rows, rows to skip, header records)
+	start := 0
+	for k := 1; k <= 5 && start < n; k++ {
+		end := bytes.IndexByte(in[start:], '\n')
+		if end < 0 {
+			break
+		}
+		end += start
+		if end > start && r.Chance(0.6) {
+			out = append(out, faultDesc{Pos: start + r.Pick(end-start+1), Where: fmt.Sprintf("inside-line-%d", k)})
+		}
+		if r.Chance(0.3) {
+			out = append(out, faultDesc{Pos: end + 1, Where: fmt.Sprintf("after-line-%d", k)})
+		}
+		start = end + 1
+	}
 	if n > 0 {
 		out = append(out, faultDesc{Pos: n - 1, Where: "last-byte"})
 		out = append(out, faultDesc{Pos: n, Where: "at-the-end"})
@@ -120,8 +139,15 @@ func isTerminal(k string) bool { return k != "rec" && k != "failed" }
 func (e *env) checkFault(v iox.Variant, in []byte, sc iox.Schedule, fd faultDesc, base []iox.Step) (returned bool) {
 	cs := e.schemaOf(v)
 	desc := caseDesc{v.Name, v.Schema, hex.EncodeToString(in), sc, fd}
-	fr := iox.NewFaultReader(iox.NewChunkReader(in, sc), fd.Pos, fd.Once)
+	if fd.Kind1 == "" {
+		fd.Kind1 = "plain"
+	}
+	if fd.Kind2 == "" {
+		fd.Kind2 = "plain"
+	}
+	fr := iox.NewFaultReaderK(iox.NewChunkReader(in, sc), fd.Pos, fd.Once, fd.Kind1, fd.Kind2)
 	fr.WithData = fd.WithData
+	vh.Current(e.o, desc)
 	steps, log := iox.RunP(cs, v.FmtIdx, fr, maxReads(base), 3, func() int { return fr.FaultCalls })
 	lastReader := cs.Last
 	fail := func(what string, extra map[string]interface{}) {
@@ -156,6 +182,13 @@ func (e *env) checkFault(v iox.Variant, in []byte, sc iox.Schedule, fd faultDesc
 	}
 	if i0 < 0 {
 		e.sum.Hist("fault-not-reached")
+		// the fault sits at or before the end of the data, so the source can not have reported
+		// io.EOF either: a clean io.EOF now means the transform declared the end of the input
+		// without learning it from the input reader (a failure there would go unnoticed)
+		if j >= 0 && steps[j].Kind == "eof" && fd.Pos <= len(in) {
+			fail(fmt.Sprintf("transform ended with a clean io.EOF at Read #%d although the input reader had reported neither io.EOF nor its error (the failing end of the input was never looked at)", j+1), nil)
+			return false
+		}
 		// the transform ended before reading up to the fault: it must behave as without fault
 		if d := iox.FirstDiff(trunc(base, len(steps)), trunc(steps, len(base))); d >= 0 && d < minInt(len(base), len(steps)) {
 			fail("source never returned the fault, yet the transcript differs from the fault-free one", nil)
@@ -269,12 +302,19 @@ func (e *env) checkInput(r *vh.Rng, v iox.Variant, in []byte, kind string) {
 		return
 	}
 	whole := iox.Schedule{Name: "whole"}
+	vh.Current(e.o, caseDesc{v.Name, v.Schema, hex.EncodeToString(in), whole, faultDesc{Pos: -1, Where: "fault-free"}})
 	base, _ := iox.Run(cs, v.FmtIdx, iox.NewChunkReader(in, whole), len(in)/2+12, 0)
 	for _, fd := range faultPositions(r, v, in) {
 		for _, once := range []bool{false, true} {
 			fd := fd
 			fd.Once = once
 			fd.WithData = r.Chance(0.25)
+			fd.Kind1 = iox.FaultKinds[r.Pick(len(iox.FaultKinds))]
+			fd.Kind2 = iox.FaultKinds[r.Pick(len(iox.FaultKinds))]
+			if r.Chance(0.3) {
+				fd.Kind2 = "plain"
+			}
+			e.sum.Hist("error-value:" + fd.Kind2)
 			sc := whole
 			if r.Chance(0.5) {
 				scs := iox.Schedules(r, in, nil)
@@ -282,7 +322,7 @@ func (e *env) checkInput(r *vh.Rng, v iox.Variant, in []byte, kind string) {
 				sc.EOFWithLast = false
 			}
 			ret := e.checkFault(v, in, sc, fd, base)
-			cd, _ := json.Marshal([]interface{}{v.Name, hex.EncodeToString(in), fd.Pos, fd.Once, fd.WithData})
+			cd, _ := json.Marshal([]interface{}{v.Name, hex.EncodeToString(in), fd.Pos, fd.Once, fd.WithData, fd.Kind1, fd.Kind2})
 			e.sum.Count(string(cd), ret && fd.Pos > 0 && fd.Pos < len(in))
 			e.sum.Hist("fault-at:" + fd.Where)
 			if once {
@@ -307,9 +347,9 @@ func main() {
 	o := vh.ParseOpts()
 	r := vh.NewRng(o.Seed)
 	sum := vh.NewSummary("C16", o,
-		"(input, fault position, fault mode) triples: inputs of the seven formats (x encodings, BOM, CRLF, ...) read through a reader that returns data up to the position and then a non-EOF error (persistent, or one error once and then another one persistently); "+
+		"(input, fault position, fault mode) triples: inputs of the seven formats (x encodings, BOM, CRLF, ...) read through a reader that returns data up to the position and then a non-EOF error (persistent, or one error once and then another one persistently; error values: plain pointer/struct errors, io.ErrUnexpectedEOF, errors wrapping io.EOF, *os.PathError, text EOF); positions include every one of the first five lines (header rows, rows to skip); "+
 			"non-trivial = the fault position is strictly inside the input and the source did return the fault; distinct by (variant, input bytes, position, mode)")
-	e := &env{sum: sum, variants: iox.Variants(), schemas: map[string]*iox.CapSchema{}}
+	e := &env{o: o, sum: sum, variants: iox.Variants(), schemas: map[string]*iox.CapSchema{}}
 	e.cw = vh.NewCaseWriter(o, "C16", "Base.ErrClass Model.Chunk Model.Fault", "fcase", "Fault.check_case")
 	e.cw.PerFile = 80
 
@@ -329,7 +369,14 @@ func main() {
 		in, _ := hex.DecodeString(rp.Case.InputHex)
 		cs := e.schemaOf(v)
 		base, _ := iox.Run(cs, v.FmtIdx, iox.NewChunkReader(in, iox.Schedule{Name: "whole"}), len(in)/2+12, 0)
-		fr := iox.NewFaultReader(iox.NewChunkReader(in, rp.Case.Schedule), rp.Case.Fault.Pos, rp.Case.Fault.Once)
+		k1, k2 := rp.Case.Fault.Kind1, rp.Case.Fault.Kind2
+		if k1 == "" {
+			k1 = "plain"
+		}
+		if k2 == "" {
+			k2 = "plain"
+		}
+		fr := iox.NewFaultReaderK(iox.NewChunkReader(in, rp.Case.Schedule), rp.Case.Fault.Pos, rp.Case.Fault.Once, k1, k2)
 		fr.WithData = rp.Case.Fault.WithData
 		st, _ := iox.RunP(cs, v.FmtIdx, fr, maxReads(base), 3, func() int { return fr.FaultCalls })
 		j1, _ := json.Marshal(base)
@@ -369,7 +416,7 @@ func main() {
 		}
 	}
 
-	total := o.Count(110, 6000)
+	total := o.Count(330, 6000)
 	for c := 0; c < total; c++ {
 		v := e.variants[r.Pick(len(e.variants))]
 		in, kind := iox.GenInput(r, v)
